@@ -22,6 +22,15 @@
                         AStop c: StandardRunService.Stop() (TimerMgr.Stop, EventCenter.Clear,
                         RunService.Stop) called by whoever performs the action: the driver (a foreign
                         goroutine, events still queued), the busy task, or a listener.
+     probe centres      6, 7: user implementations of ILocalEventCenter (a queue, no listeners) that
+                        call GlobalEventCenter.Subscribe / Unsubscribe themselves (OReg), each on its own
+                        goroutine.  Such a call can be held INSIDE the global centre (OPark): after the
+                        name's list was looked up, at the GetId() call made on the centre object, i.e.
+                        before the Store / Delete; meanwhile the other centres act; ORelease lets it
+                        return (VDone).  [pr] = registered probes, [pp] = held calls.  While a call for
+                        name n is held, a publication of n may or may not reach that probe; after VDone
+                        the outcome must be the sequential one.  VProbe (after VGPub, while any probe is
+                        registered or held) reports the probe queue lengths.
                         An action on a centre the acting goroutine does not own is not issued (VNop),
                         except those that are meant to be called from anywhere: GlobalEC.Publish,
                         a channel-mode Publish (a send) and Stop().
@@ -80,7 +89,14 @@ Inductive op :=
 | OSetChan (c : Z) (b : bool)           (* SetLocalUseChan *)
 | OStart (c : Z)                        (* driver: Start() of service c; its loop runs until idle *)
 | ORun (c : Z)                          (* the loop of c is released and runs until idle / ended *)
-| OOwn (c : Z) (a : action).            (* the loop goroutine of c (busy in a task) performs a *)
+| OOwn (c : Z) (a : action)             (* the loop goroutine of c (busy in a task) performs a *)
+(* probe centres 6, 7: user implementations of ILocalEventCenter (a queue, no listeners) that talk
+   to the global centre directly, each on its own goroutine *)
+| OReg (c n : Z) (b : bool)             (* GetGlobalEC().Subscribe (b) / Unsubscribe (~b) (name n, probe c) *)
+| OPark (c n : Z) (b : bool)            (* the same call, started on the probe's goroutine and held inside
+                                           the global centre: after the lookup of n's list, at the call
+                                           the global centre makes on the centre object (GetId) *)
+| ORelease (c : Z).                     (* the held call of probe c continues and returns *)
 
 (* ---------------------------------------------------------------- trace events *)
 Inductive ev :=
@@ -105,8 +121,13 @@ Inductive ev :=
 | VStart (c : Z)                                   (* Start(): the loop goroutine of service c exists *)
 | VStop (c : Z)                                    (* Stop() of service c was called and has returned *)
 | VSkip (c k : Z)                                  (* the loop of c received the next k events; nobody invoked *)
-| VLoopEnd (c : Z).                                (* the loop goroutine of c has ended; what was left in
+| VLoopEnd (c : Z)                                 (* the loop goroutine of c has ended; what was left in
                                                       its queue is never received *)
+| VReg (c n : Z)                                   (* global Subscribe(n, probe c) returned *)
+| VUnreg (c n : Z)                                 (* global Unsubscribe(n, probe c) returned *)
+| VPark (c n : Z) (b : bool)                       (* such a call is held inside the global centre *)
+| VDone (c : Z)                                    (* the held call of probe c has returned *)
+| VProbe (n : Z) (args : list Z) (k : Z) (qlens : list Z).  (* after k global publishes: len of queue 6, 7 *)
 
 (* ---------------------------------------------------------------- the view of a trace *)
 Record linfo := LI { i_l : Z; i_c : Z; i_n : Z; i_g : bool; i_bound : list Z }.
@@ -123,9 +144,14 @@ Record view := VW {
   lastfull : bool;          (* the last event was a channel send on a full queue *)
   dead : bool;
   alive : list Z;           (* services whose loop goroutine exists (started, not ended) *)
-  stopped : list Z }.       (* services on which Stop() was called *)
+  stopped : list Z;         (* services on which Stop() was called *)
+  pr : list (Z * Z);        (* (probe, name): registered at the global centre *)
+  pp : alist (Z * bool) }.  (* probe -> (name, subscribe?) of its call held inside the global centre *)
 
-Definition view0 : view := VW [] 1 [] [] 1 [] false false [] [].
+Definition view0 : view := VW [] 1 [] [] 1 [] false false [] [] [] [].
+
+Definition is_probe (c : Z) : bool := (6 <=? c) && (c <=? 7).
+Definition probe_centres : list Z := [6; 7].
 
 Definition is_drv (c : Z) : bool := (0 <=? c) && (c <=? 3).
 Definition is_svc (c : Z) : bool := (4 <=? c) && (c <=? 5).
@@ -146,26 +172,33 @@ Definition queue_of (w : view) (c : Z) : queue :=
 Definition qlen (w : view) (c : Z) : Z := Z.of_nat (length (queue_of w c)).
 
 Definition set_live (w : view) (x : list linfo) : view :=
-  VW x (fresh w) (cleared w) (frames w) (npub w) (queues w) (lastfull w) (dead w) (alive w) (stopped w).
+  VW x (fresh w) (cleared w) (frames w) (npub w) (queues w) (lastfull w) (dead w) (alive w) (stopped w) (pr w) (pp w).
 Definition set_fresh (w : view) (x : Z) : view :=
-  VW (live w) x (cleared w) (frames w) (npub w) (queues w) (lastfull w) (dead w) (alive w) (stopped w).
+  VW (live w) x (cleared w) (frames w) (npub w) (queues w) (lastfull w) (dead w) (alive w) (stopped w) (pr w) (pp w).
 Definition set_cleared (w : view) (x : list Z) : view :=
-  VW (live w) (fresh w) x (frames w) (npub w) (queues w) (lastfull w) (dead w) (alive w) (stopped w).
+  VW (live w) (fresh w) x (frames w) (npub w) (queues w) (lastfull w) (dead w) (alive w) (stopped w) (pr w) (pp w).
 Definition set_frames (w : view) (x : alist frame) : view :=
-  VW (live w) (fresh w) (cleared w) x (npub w) (queues w) (lastfull w) (dead w) (alive w) (stopped w).
+  VW (live w) (fresh w) (cleared w) x (npub w) (queues w) (lastfull w) (dead w) (alive w) (stopped w) (pr w) (pp w).
 Definition set_npub (w : view) (x : Z) : view :=
-  VW (live w) (fresh w) (cleared w) (frames w) x (queues w) (lastfull w) (dead w) (alive w) (stopped w).
+  VW (live w) (fresh w) (cleared w) (frames w) x (queues w) (lastfull w) (dead w) (alive w) (stopped w) (pr w) (pp w).
 Definition set_queue (w : view) (c : Z) (q : queue) : view :=
   VW (live w) (fresh w) (cleared w) (frames w) (npub w) (aset c q (queues w)) (lastfull w) (dead w)
-     (alive w) (stopped w).
+     (alive w) (stopped w) (pr w) (pp w).
 Definition set_lastfull (w : view) (b : bool) : view :=
-  VW (live w) (fresh w) (cleared w) (frames w) (npub w) (queues w) b (dead w) (alive w) (stopped w).
+  VW (live w) (fresh w) (cleared w) (frames w) (npub w) (queues w) b (dead w) (alive w) (stopped w) (pr w) (pp w).
 Definition set_dead (w : view) (b : bool) : view :=
-  VW (live w) (fresh w) (cleared w) (frames w) (npub w) (queues w) (lastfull w) b (alive w) (stopped w).
+  VW (live w) (fresh w) (cleared w) (frames w) (npub w) (queues w) (lastfull w) b (alive w) (stopped w) (pr w) (pp w).
 Definition set_alive (w : view) (x : list Z) : view :=
-  VW (live w) (fresh w) (cleared w) (frames w) (npub w) (queues w) (lastfull w) (dead w) x (stopped w).
+  VW (live w) (fresh w) (cleared w) (frames w) (npub w) (queues w) (lastfull w) (dead w) x (stopped w) (pr w) (pp w).
 Definition set_stopped (w : view) (x : list Z) : view :=
-  VW (live w) (fresh w) (cleared w) (frames w) (npub w) (queues w) (lastfull w) (dead w) (alive w) x.
+  VW (live w) (fresh w) (cleared w) (frames w) (npub w) (queues w) (lastfull w) (dead w) (alive w) x (pr w) (pp w).
+
+Definition set_pr (w : view) (x : list (Z * Z)) : view :=
+  VW (live w) (fresh w) (cleared w) (frames w) (npub w) (queues w) (lastfull w) (dead w) (alive w) (stopped w)
+     x (pp w).
+Definition set_pp (w : view) (x : alist (Z * bool)) : view :=
+  VW (live w) (fresh w) (cleared w) (frames w) (npub w) (queues w) (lastfull w) (dead w) (alive w) (stopped w)
+     (pr w) x.
 
 Definition repeat_ev (x : Z * list Z) (k : Z) : queue := repeat x (Z.to_nat k).
 
@@ -194,6 +227,23 @@ Fixpoint grow (w : view) (x : Z * list Z) (cs qlens : list Z) : view :=
   | _, _ => w
   end.
 
+Definition pair_mem (c n : Z) (l : list (Z * Z)) : bool :=
+  existsb (fun x => (fst x =? c) && (snd x =? n)) l.
+Definition pair_del (c n : Z) (l : list (Z * Z)) : list (Z * Z) :=
+  filter (fun x => negb ((fst x =? c) && (snd x =? n))) l.
+Definition pair_add (c n : Z) (l : list (Z * Z)) : list (Z * Z) :=
+  if pair_mem c n l then l else (c, n) :: l.
+(* a probe whose call is held: what the call does to the registration once it returns *)
+Definition pr_after (w : view) (c : Z) : list (Z * Z) :=
+  match aget c (pp w) with
+  | Some (n, true) => pair_add c n (pr w)
+  | Some (n, false) => pair_del c n (pr w)
+  | None => pr w
+  end.
+(* probe queues are observed (VProbe after every VGPub) while some probe is registered or held *)
+Definition probing (w : view) : bool :=
+  match pr w, pp w with [], [] => false | _, _ => true end.
+
 Definition vstep0 (w : view) (e : ev) : view :=
   match e with
   | VSub l c n g b => set_fresh (set_live w (live w ++ [LI l c n g b])) (l + 1)
@@ -221,6 +271,11 @@ Definition vstep0 (w : view) (e : ev) : view :=
   | VSkip c k => set_queue w c (skipn (Z.to_nat k) (queue_of w c))
   | VStart c => set_alive w (c :: alive w)
   | VLoopEnd c => set_alive (set_queue w c []) (filter (fun x => negb (x =? c)) (alive w))
+  | VReg c n => set_pr w (pair_add c n (pr w))
+  | VUnreg c n => set_pr w (pair_del c n (pr w))
+  | VPark c n b => set_pp w (aset c (n, b) (pp w))
+  | VDone c => set_pp (set_pr w (pr_after w c)) (adel c (pp w))
+  | VProbe n a _ qlens => grow w (n, a) probe_centres qlens
   | VDeadlock => set_dead w true
   | VOp | VSubFail | VAmbig | VRet _ _ | VNop => w
   end.
@@ -261,10 +316,6 @@ Definition emit (e : ev) (s : st) : st :=
   if dead (vw s) then s
   else ST (vstep (vw s) e) (attrs s) (chanm s) (greg s) (progs s) (tl (guide s)) (e :: log s).
 
-Definition pair_mem (c n : Z) (l : list (Z * Z)) : bool :=
-  existsb (fun x => (fst x =? c) && (snd x =? n)) l.
-Definition pair_del (c n : Z) (l : list (Z * Z)) : list (Z * Z) :=
-  filter (fun x => negb ((fst x =? c) && (snd x =? n))) l.
 
 Definition cnorm (code : Z) : Z := code mod 4.
 Definition attr_of (s : st) (l : Z) : Z * Z * Z :=
@@ -338,8 +389,15 @@ Definition do_stop (c : Z) (s : st) : st :=
 Definition gpub_len (s : st) (n k c : Z) : Z :=
   if pair_mem c n (greg s) then Z.min QCAP (qlen (vw s) c + k) else qlen (vw s) c.
 Definition clampk (k : Z) : Z := Z.max 0 (Z.min k REPMAX).
+(* ... and to every registered probe; a probe whose Subscribe is held inside the global centre
+   is not in the list yet, one whose Unsubscribe is held still is *)
+Definition pgpub_len (w : view) (n k c : Z) : Z :=
+  if pair_mem c n (pr w) then Z.min QCAP (qlen w c + k) else qlen w c.
 Definition do_gpub (n : Z) (args : list Z) (k : Z) (s : st) : st :=
-  emit (VGPub n args (clampk k) (map (gpub_len s n (clampk k)) local_centres)) s.
+  let s1 := emit (VGPub n args (clampk k) (map (gpub_len s n (clampk k)) local_centres)) s in
+  if probing (vw s1)
+  then emit (VProbe n args (clampk k) (map (pgpub_len (vw s1) n (clampk k)) probe_centres)) s1
+  else s1.
 
 (* ---------------------------------------------------------------- one nesting level *)
 Definition hint (p : Z) (s : st) : option Z :=
@@ -489,6 +547,10 @@ Fixpoint resync (g : list ev) : list ev :=
   | _ :: r => resync r
   end.
 
+(* probe c exists and its goroutine is not inside a held call *)
+Definition probe_free (w : view) (c : Z) : bool :=
+  is_probe c && match aget c (pp w) with None => true | Some _ => false end.
+
 Definition exec_op (s : st) (o : op) : st :=
   let s0 := emit VOp (set_guide s (resync (guide s))) in
   match o with
@@ -506,6 +568,10 @@ Definition exec_op (s : st) (o : op) : st :=
   | OStart c => if can_start (vw s0) c then run_loop c (emit (VStart c) s0) else emit VNop s0
   | ORun c => if loop_alive (vw s0) c then run_loop c s0 else emit VNop s0
   | OOwn c a => if loop_alive (vw s0) c then exec_act c (invoke c DEPTH) None a s0 else emit VNop s0
+  | OReg c n b =>
+      if probe_free (vw s0) c then emit (if b then VReg c n else VUnreg c n) s0 else emit VNop s0
+  | OPark c n b => if probe_free (vw s0) c then emit (VPark c n b) s0 else emit VNop s0
+  | ORelease c => match aget c (pp (vw s0)) with Some _ => emit (VDone c) s0 | None => emit VNop s0 end
   end.
 
 Definition final (g : list ev) (ops : list op) : st := fold_left exec_op ops (init g).
